@@ -2,7 +2,13 @@
 //! the join handle and the real exit path of ractor on a paused-clock current_thread runtime.
 //!
 //! stdin, one scenario per line:
-//!   wait cause=<c> sup=<0|1> kids=<n> park=<0|1> ; <op> ; <op> ; ...
+//!   wait cause=<c> sup=<0|1> kids=<n | k,k,...> park=<0|1> ; <op> ; <op> ; ...
+//!     kids: linked children; a number = that many idle children, or a list of kinds
+//!         run (idle) | busy (Running, handler parked at a gate that is never opened)
+//!         | drain (busy like that, then drain() requested: status Draining)
+//!         | stopping (stop requested, parked in post_stop: status Stopping)
+//!     the `children` flag of a snapshot = the parent has detached its children AND (judged at the
+//!     final quiescence, gates still closed) every child has been signalled: it reached >= Stopping
 //!     c ::= stop | drain | kill | killhandler | err | panic | stopkill | prefail | prepanic
 //!         | postfail | pserr | pspanic | prekill | postkill
 //!     op ::= w <id> <kind> <tmo>   spawn waiter task <id>; kind = wait|stopw|killw|drainw|join|inline,
@@ -153,6 +159,32 @@ impl Actor for Main {
             Res::Err => Err("post_stop failed".into()),
             Res::Panic => panic!("post_stop panic"),
         }
+    }
+}
+
+/// A child with a parkable handler and a parkable post_stop (gates are never opened before the tidy-up).
+struct Kid2;
+#[derive(Clone)]
+struct KidCfg {
+    gate: Gate,
+    park_ps: bool,
+}
+impl Actor for Kid2 {
+    type Msg = ();
+    type State = KidCfg;
+    type Arguments = KidCfg;
+    async fn pre_start(&self, _: ActorRef<()>, c: KidCfg) -> Result<KidCfg, ActorProcessingErr> {
+        Ok(c)
+    }
+    async fn handle(&self, _: ActorRef<()>, _: (), c: &mut KidCfg) -> Result<(), ActorProcessingErr> {
+        c.gate.pass().await;
+        Ok(())
+    }
+    async fn post_stop(&self, _: ActorRef<()>, c: &mut KidCfg) -> Result<(), ActorProcessingErr> {
+        if c.park_ps {
+            c.gate.pass().await;
+        }
+        Ok(())
     }
 }
 
@@ -333,7 +365,11 @@ async fn run_scenario(line: &str) -> String {
     assert_eq!(head[0], "wait");
     let cause = kv(&head, "cause").to_string();
     let with_sup = kv(&head, "sup") == "1";
-    let kids: usize = kv(&head, "kids").parse().unwrap();
+    let kids_spec = kv(&head, "kids");
+    let kid_kinds: Vec<String> = match kids_spec.parse::<usize>() {
+        Ok(n) => vec!["run".to_string(); n],
+        Err(_) => kids_spec.split(',').map(|x| x.to_string()).collect(),
+    };
     let park = kv(&head, "park") == "1";
 
     let name = format!("c06-{pid}-{sid}");
@@ -391,8 +427,28 @@ async fn run_scenario(line: &str) -> String {
     pg::monitor(group.clone(), sup_ref.get_cell());
     pg::join(group.clone(), vec![main_cell.clone()]);
     let mut kid_cells = Vec::new();
-    for _ in 0..kids {
-        let (k, _) = Actor::spawn_linked(None, Kid, (), main_cell.clone()).await.expect("kid");
+    let mut kid_gates = Vec::new();
+    for kind in &kid_kinds {
+        let g = Gate::new();
+        let cfgk = KidCfg { gate: g.clone(), park_ps: kind == "stopping" };
+        let (k, _) = Actor::spawn_linked(None, Kid2, cfgk, main_cell.clone()).await.expect("kid");
+        match kind.as_str() {
+            "run" => {}
+            "busy" => {
+                k.cast(()).expect("kid msg");
+            }
+            "drain" => {
+                k.cast(()).expect("kid msg");
+                settle().await;
+                let _ = k.get_cell().drain();
+            }
+            "stopping" => {
+                settle().await;
+                k.stop(None);
+            }
+            o => panic!("bad kid kind {o}"),
+        }
+        kid_gates.push(g);
         kid_cells.push(k.get_cell());
     }
     if cause == "killhandler" {
@@ -526,6 +582,8 @@ async fn run_scenario(line: &str) -> String {
 
     // pending waiters, with the final snapshot
     let final_snap = ctx.snapshot();
+    // every child signalled: with its gates still closed it has reached >= Stopping
+    let kids_ok = kid_cells.iter().all(|k| k.get_status() >= ActorStatus::Stopping);
     let term_at_end = sup_log.lock().unwrap().iter().any(|e| e == "term");
     let completed: Vec<u64> = done.lock().unwrap().iter().map(|(w, _, _)| *w).collect();
     let mut pending: Vec<u64> = Vec::new();
@@ -549,6 +607,9 @@ async fn run_scenario(line: &str) -> String {
     start_gate.open();
     ps_gate.open();
     main_cell.kill();
+    for g in &kid_gates {
+        g.open();
+    }
     for k in &kid_cells {
         k.kill();
     }
@@ -572,12 +633,21 @@ async fn run_scenario(line: &str) -> String {
         }
     };
 
+    let with_kids = |s: &Snap| Snap {
+        status: s.status,
+        name: s.name,
+        pid: s.pid,
+        pg: s.pg,
+        ps_active: s.ps_active,
+        ps_done: s.ps_done,
+        children: s.children && kids_ok,
+    };
     let mut obs: Vec<String> = Vec::new();
     for (w, out, snap) in done.lock().unwrap().iter() {
-        obs.push(format!("mkObs {} {} {}", w, out, snap_term(snap, sup_at(*w))));
+        obs.push(format!("mkObs {} {} {}", w, out, snap_term(&with_kids(snap), sup_at(*w))));
     }
     for w in pending {
-        obs.push(format!("mkObs {} OPending {}", w, snap_term(&final_snap, with_sup && term_at_end)));
+        obs.push(format!("mkObs {} OPending {}", w, snap_term(&with_kids(&final_snap), with_sup && term_at_end)));
     }
     let sts: Vec<&str> = statuses.iter().map(|s| status_name(*s)).collect();
     format!("({}, {}, {})", coq_list(&obs), coq_list(&sts), leaves_at_end)
